@@ -1,6 +1,6 @@
 (* Facts about Model/CborEnc.v and the indefinite-length array codec of Model/AddrAdaByron.v. *)
 From Coq Require Import NArith Arith List Lia Bool.
-From BU Require Import Base.Exn Base.Radix Base.Bytes Model.EdLib Model.CborEnc Model.AddrAdaByron Lemmas.EdLib.
+From BU Require Import Base.Exn Base.Radix Base.Bytes Gen.ConstsCardmon Model.EdLib Model.CborEnc Model.AddrAdaByron Lemmas.EdLib.
 Import ListNotations.
 Open Scope N_scope.
 
@@ -34,6 +34,12 @@ Proof. apply cbor_head_ok; lia. Qed.
 Lemma cbor_tag_ok t item : bytes_ok item -> bytes_ok (cbor_tag t item).
 Proof. intros H. apply bytes_ok_app; split; [apply cbor_head_ok; lia|exact H]. Qed.
 
+(* the generated constants of the codec *)
+Lemma indef_consts : cbor_indef_start = 159 /\ cbor_indef_end = 255 /\ (cbor_indef_min_len <= 2)%nat /\
+  forall x, indef_elem_len x =
+    if x =? 24 then 2%nat else if x =? 25 then 3%nat else if x =? 26 then 5%nat else if x =? 27 then 9%nat else 1%nat.
+Proof. split; [reflexivity|]. split; [reflexivity|]. split; [vm_compute; lia|]. intros x. reflexivity. Qed.
+
 (* ---- one unsigned integer as an element of the indefinite array ---- *)
 Lemma uint_elem n : n < 2 ^ 64 ->
   exists x t, cbor_uint n = x :: t /\ x <> 255 /\ x <= 27 /\
@@ -42,7 +48,7 @@ Proof.
   intros H. unfold cbor_uint, cbor_head. cbn [N.mul N.add Pos.add Pos.mul].
   destruct (N.ltb_spec n 24) as [H0|H0].
   { exists n, []. repeat split; try lia.
-    - unfold indef_elem_len. destruct (N.eqb_spec n 24); [lia|]. destruct (N.eqb_spec n 25); [lia|].
+    - rewrite (proj2 (proj2 (proj2 indef_consts))). destruct (N.eqb_spec n 24); [lia|]. destruct (N.eqb_spec n 25); [lia|].
       destruct (N.eqb_spec n 26); [lia|]. destruct (N.eqb_spec n 27); [lia|]. reflexivity.
     - unfold indef_elem. destruct (N.ltb_spec n 24); [reflexivity|lia]. }
   destruct (N.ltb_spec n (2 ^ 8)) as [H1|H1].
@@ -68,7 +74,7 @@ Proof.
   - reflexivity.
   - cbn [map concat]. destruct (uint_elem n Hn) as (x & t & E & NE & _ & Len & El).
     rewrite <- app_assoc. rewrite E at 1. cbn [indef_elems app].
-    destruct (N.eqb_spec x 255); [contradiction|].
+    rewrite (proj1 (proj2 indef_consts)). destruct (N.eqb_spec x 255); [contradiction|].
     rewrite Len. rewrite !app_comm_cons. rewrite <- E.
     rewrite firstn_app, Nat.sub_diag, firstn_all. cbn [firstn]. rewrite app_nil_r, El. cbn [bind].
     rewrite skipn_app, Nat.sub_diag, skipn_all. cbn [skipn app].
@@ -85,25 +91,21 @@ Proof.
   induction l as [|n l IH]; simpl; [lia|]. rewrite app_length. pose proof (cbor_uint_nonempty n). lia.
 Qed.
 
-(* the codec of the HD path: a non-empty list of integers below 2^64 survives the round trip ... *)
-Theorem indef_decode_encode l : l <> [] -> Forall (fun n => n < 2 ^ 64) l -> indef_decode (indef_encode l) = Ok l.
+(* the codec of the HD path: every list of integers below 2^64 survives the round trip *)
+Theorem indef_decode_encode l : Forall (fun n => n < 2 ^ 64) l -> indef_decode (indef_encode l) = Ok l.
 Proof.
-  intros NE H. unfold indef_decode, indef_encode.
+  intros H. unfold indef_decode, indef_encode.
+  destruct indef_consts as (S159 & E255 & Lmin & _). rewrite S159, E255.
   pose proof (concat_uint_length l) as CL.
-  assert (L0 : (1 <= length l)%nat) by (destruct l; [congruence|simpl; lia]).
   cbn [app hd tl]. rewrite N.eqb_refl.
   assert (Len : length (159 :: concat (map cbor_uint l) ++ [255]) = S (length (concat (map cbor_uint l)) + 1))
     by (cbn [length]; rewrite app_length; reflexivity).
-  rewrite Len. destruct (Nat.leb_spec 3 (S (length (concat (map cbor_uint l)) + 1))); [|lia].
+  rewrite Len. destruct (Nat.leb_spec cbor_indef_min_len (S (length (concat (map cbor_uint l)) + 1))); [|lia].
   replace (last (159 :: concat (map cbor_uint l) ++ [255]) 0) with 255.
   2:{ change (159 :: concat (map cbor_uint l) ++ [255]) with ((159 :: concat (map cbor_uint l)) ++ [255]).
       rewrite last_last. reflexivity. }
   cbn [N.eqb Pos.eqb]. apply indef_elems_rt; [exact H|lia].
 Qed.
-
-(* ... but the empty list does not: Encode([]) is two bytes and Decode insists on three *)
-Theorem indef_empty_not_recoverable : indef_decode (indef_encode []) = Err ValueError.
-Proof. reflexivity. Qed.
 
 (* ---- sizes ---- *)
 Lemma cbor_head_length major n : n < 2 ^ 64 -> (length (cbor_head major n) <= 9)%nat.
